@@ -1,13 +1,13 @@
 (** Effects, part 1: what one iteration of an effect's task loop preserves.  The body of an
     effect runs as a frame on top of the graph invariant; between "notification consumed" and
-    "body started" the effect itself is exempted ([InvBut]).  Effect bodies here do not write
-    signals ([pure_effects]). *)
+    "body started" the effect itself is exempted ([InvBut]).  Effect bodies may write signals,
+    but not signals of their own static cone ([no_self_feed], the complement of F-C02-d). *)
 From Coq Require Import List ZArith Bool Arith Lia.
 From LV Require Import Reactive.Graph Reactive.Effects Reactive.GraphLemmas Reactive.GraphReplay Reactive.GraphInvariant
                        Reactive.GraphMarkProofs Reactive.GraphMarkOrigin Reactive.GraphQueueProofs
                        Reactive.GraphPullBase Reactive.GraphPullSteps
                        Reactive.GraphPullDefs Reactive.GraphPullEval Reactive.GraphPullRead
-                       Reactive.GraphPullMemo Reactive.GraphPullProofs Reactive.GraphProofs.
+                       Reactive.GraphPullMemo Reactive.GraphPullProofs Reactive.GraphMarkCone Reactive.GraphProofs.
 Import ListNotations.
 Close Scope Z_scope.
 Open Scope nat_scope.
@@ -36,24 +36,50 @@ Notation queue_ok := (queue_ok p).
 Definition pure_effects : Prop :=
   forall i k b h, decl_of p i = DEff k b h -> expr_ok p i false b /\ expr_ok p i false h.
 
-Lemma eval_aw R e : forall i c s, expr_ok p i false e -> eval p R true c e s = eval p R false c e s.
+(* the known class of finding F-C02-d: some effect (body or watch handler) writes a signal that
+   lies in its own static cone, i.e. that it may itself read, directly or through memos *)
+Definition self_feeding : Prop :=
+  exists i k b h x, decl_of p i = DEff k b h /\ (writes x b \/ writes x h) /\ dep p i x.
+Definition no_self_feed : Prop :=
+  forall i k b h x, decl_of p i = DEff k b h -> writes x b \/ writes x h -> ~ dep p i x.
+
+Lemma not_self_feeding : ~ self_feeding -> no_self_feed.
+Proof. intros H i k b h x Hd Hw Hx. apply H. exists i, k, b, h, x. auto. Qed.
+
+Lemma pure_no_writes i e x : expr_ok p i false e -> writes x e -> False.
 Proof.
   induction e as [z|j|j|a IHa|a IHa b IHb|a IHa b IHb|g IHg a IHa b IHb|w a IHa];
-    intros i c s Hok; cbn [eval expr_ok] in *; auto.
-  - eapply IHa; eauto.
-  - destruct Hok as [Ha Hb]. rewrite (IHa i c s Ha). destruct (eval p R false c a s) as [s1 x].
-    rewrite (IHb i c s1 Hb). reflexivity.
-  - destruct Hok as [Ha Hb]. rewrite (IHa i c s Ha). destruct (eval p R false c a s) as [s1 x].
-    rewrite (IHb i c s1 Hb). reflexivity.
-  - destruct Hok as (Hg & Ha & Hb). rewrite (IHg i c s Hg). destruct (eval p R false c g s) as [s1 x].
-    destruct (Z.eqb x 0); [apply (IHb i c s1 Hb)|apply (IHa i c s1 Ha)].
-  - destruct Hok as (Hf & _). discriminate.
+    cbn [expr_ok writes]; intros Hok Hw; try contradiction; try tauto.
+  destruct Hok as (Hf & _). discriminate.
+Qed.
+
+Lemma pure_no_self_feed : pure_effects -> no_self_feed.
+Proof.
+  intros Hp i k b h x Hd Hw _. destruct (Hp i k b h Hd) as (Hb & Hh).
+  destruct Hw as [Hw|Hw]; [exact (pure_no_writes i b x Hb Hw)|exact (pure_no_writes i h x Hh Hw)].
+Qed.
+
+(* what the body (or handler) of effect e must satisfy *)
+Definition body_ok (e : nat) (ex : expr) : Prop :=
+  expr_ok p e true ex /\ (forall x, occurs x ex -> dep p e x) /\ (forall x, writes x ex -> ~ dep p e x).
+
+Lemma nsf_body_ok i k b h : no_self_feed -> decl_of p i = DEff k b h -> body_ok i b /\ body_ok i h.
+Proof.
+  intros Hn Hd.
+  assert (Hil : i < length p).
+  { destruct (Nat.lt_ge_cases i (length p)); auto. unfold decl_of in Hd. rewrite nth_overflow in Hd by auto. discriminate. }
+  pose proof (wfp i Hil) as Hw. rewrite Hd in Hw. destruct Hw as [Hwb Hwh].
+  split; (split; [assumption|split]).
+  - intros x Hx. apply dep_one. unfold dep1. rewrite Hd. auto.
+  - intros x Hx. apply (Hn i k b h x Hd). auto.
+  - intros x Hx. apply dep_one. unfold dep1. rewrite Hd. auto.
+  - intros x Hx. apply (Hn i k b h x Hd). auto.
 Qed.
 
 Lemma RSpec_mono n n' R : n' <= n -> RSpec n R -> RSpec n' R.
 Proof.
-  intros Hle H m c j s stk t s' v Hj Hjt He I C T Hr.
-  destruct (H m c j s stk t s' v ltac:(lia) Hjt He I C T Hr) as (A1 & A2 & A3 & A4 & A5 & A6).
+  intros Hle H m c j s stk t s' v Hj Hjt He Hcd I C T Hr.
+  destruct (H m c j s stk t s' v ltac:(lia) Hjt He Hcd I C T Hr) as (A1 & A2 & A3 & A4 & A5 & A6).
   split; auto. split; auto. split; auto. split; auto. split; auto.
   intros w Hw. destruct (A6 w Hw) as (D & HD & HQ). exists D. split; auto.
   cbv beta in *. intros rest. rewrite <- (HQ rest). symmetry. apply (rlvl_mono p n' n m (snd c) j (D ++ rest) Hj Hle).
@@ -142,14 +168,81 @@ Qed.
 Lemma InvBut_nil e t t' s : InvBut e [] t s -> InvBut e [] t' s.
 Proof. intros I. split; try apply I. intros k []. Qed.
 
+(* ---------------------------------------------------------------- evaluation of an effect body *)
+Lemma EffRel_refl s : EffRel s s.
+Proof. split; auto. intros i. repeat split. Qed.
+Lemma EffRel_trans a b c : EffRel a b -> EffRel b c -> EffRel a c.
+Proof.
+  intros [H1 G1] [H2 G2]. split; [|congruence].
+  intros i. specialize (H1 i). specialize (H2 i). intuition congruence.
+Qed.
+Lemma PullRel_EffRel b stk ex s s' : PullRel b stk ex s s' -> EffRel s s'.
+Proof. intros P. split; [apply (pr_eff _ _ _ _ _ _ P)|apply P]. Qed.
+
+(* reads as in any body; a write goes to a signal outside the effect's cone, so it leaves the
+   effect and everything it has read untouched *)
+Lemma eff_eval_spec e R : RSpec e R -> effb e = true ->
+  forall ex c s s' v,
+    body_ok e ex -> fst c = Some e -> Inv [e] e s -> TopOK c s ->
+    eval p R true c ex s = (s', v) ->
+    Inv [e] e s' /\ TopOK c s' /\ EffRel s s'.
+Proof.
+  intros HR He ex.
+  induction ex as [z|j|j|a IHa|a IHa b IHb|a IHa b IHb|g IHg a IHa b IHb|w a IHa];
+    intros c s s' v (Hok & Hoc & Hwr) Hc I T Hev; cbn [eval] in Hev; cbn [expr_ok] in Hok;
+    cbn [occurs] in Hoc; cbn [writes] in Hwr.
+  - inversion Hev; subst. split; auto. split; auto. apply EffRel_refl.
+  - destruct Hok as [Hj Hej].
+    assert (C : ctx_ok [e] c) by (unfold ctx_ok; rewrite Hc; eauto).
+    assert (Hcd : CtxDep p c j) by (intros w Hw; rewrite Hc in Hw; inversion Hw; subst; auto).
+    destruct (HR true c j s [e] e s' v Hj Hj Hej Hcd I C T Hev) as (I' & T' & P' & _).
+    split; auto. split; auto. eapply PullRel_EffRel; eauto.
+  - destruct Hok as [Hj Hej].
+    assert (C : ctx_ok [e] c) by (unfold ctx_ok; rewrite Hc; eauto).
+    assert (Hcd : CtxDep p c j) by (intros w Hw; rewrite Hc in Hw; inversion Hw; subst; auto).
+    destruct (HR false c j s [e] e s' v Hj Hj Hej Hcd I C T Hev) as (I' & T' & P' & _).
+    split; auto. split; auto. eapply PullRel_EffRel; eauto.
+  - apply (IHa (fst c, false) s s' v); auto. split; auto.
+  - destruct Hok as [Ha Hb].
+    destruct (eval p R true c a s) as [s1 x] eqn:E1.
+    destruct (eval p R true c b s1) as [s2 y] eqn:E2. inversion Hev; subst.
+    destruct (IHa c s s1 x) as (I1 & T1 & P1); auto. { split; auto. }
+    destruct (IHb c s1 s' y) as (I2 & T2 & P2); auto. { split; auto. }
+    split; auto. split; auto. eapply EffRel_trans; eauto.
+  - destruct Hok as [Ha Hb].
+    destruct (eval p R true c a s) as [s1 x] eqn:E1.
+    destruct (eval p R true c b s1) as [s2 y] eqn:E2. inversion Hev; subst.
+    destruct (IHa c s s1 x) as (I1 & T1 & P1); auto. { split; auto. }
+    destruct (IHb c s1 s' y) as (I2 & T2 & P2); auto. { split; auto. }
+    split; auto. split; auto. eapply EffRel_trans; eauto.
+  - destruct Hok as (Hg & Ha & Hb).
+    destruct (eval p R true c g s) as [s1 x] eqn:E1.
+    destruct (IHg c s s1 x) as (I1 & T1 & P1); auto. { split; auto. }
+    destruct (Z.eqb x 0).
+    + destruct (IHb c s1 s' v) as (I2 & T2 & P2); auto. { split; auto 6. }
+      split; auto. split; auto. eapply EffRel_trans; eauto.
+    + destruct (IHa c s1 s' v) as (I2 & T2 & P2); auto. { split; auto 6. }
+      split; auto. split; auto. eapply EffRel_trans; eauto.
+  - destruct Hok as (_ & Hsw & Ha).
+    destruct (eval p R true c a s) as [s1 x] eqn:E1. inversion Hev; subst s' v. clear Hev.
+    destruct (IHa c s s1 x) as (I1 & T1 & P1); auto. { split; auto. }
+    assert (HL : L1 s1 e) by (unfold TopOK in T1; rewrite Hc in T1; exact T1).
+    destruct (Inv_write p [e] e w x s1 I1 Hsw) as (I2 & Hun & P2).
+    { intros k [<-|[]]. split; [|split; auto].
+      intros E. subst w. unfold GraphInvariant.effb, GraphInvariant.sigb in *. destruct (decl_of p e); discriminate. }
+    unfold write_sig. split; auto. split.
+    + unfold TopOK. rewrite Hc. unfold L1. rewrite (Hun e (or_introl eq_refl)). exact HL.
+    + eapply EffRel_trans; eauto.
+Qed.
+
 (* ---------------------------------------------------------------- a body of an effect runs *)
 Lemma eff_body_spec first e body s s' v :
-  InvBut e [] 0 s -> queue_ok s e -> effb e = true -> expr_ok p e false body ->
+  InvBut e [] 0 s -> queue_ok s e -> effb e = true -> body_ok e body ->
   edirty (getn s e) = false ->
   (first = true \/ since (getn s e) <> []) ->
   eval p (read_any p) true (Some e, true) body (begin_run first e (clear_sources e s)) = (s', v) ->
-  Inv0 s' /\ PullRel (S e) [] None s s' /\ Lcur s' e /\ Lclean s' e /\
-  edirty (getn s' e) = false /\ subs (getn s' e) = subs (getn s e).
+  Inv0 s' /\ EffRel s s' /\ Lcur s' e /\ Lclean s' e /\
+  edirty (getn s' e) = false.
 Proof.
   intros I Hq He Hok Hd Hcause Hr.
   assert (Hel : e < length p) by (apply effb_lt; auto).
@@ -157,18 +250,14 @@ Proof.
   destruct (memo_begin p [] e first s (InvBut_nil e 0 e s I) Hq) as (Ic & L1c & Pc & Hsuc & _ & _ & _ & _); auto.
   { intros k []. } { intros Hm; congruence. }
   set (sc := begin_run first e (clear_sources e s)) in *.
-  rewrite (eval_aw (read_any p) body e (Some e, true) sc Hok) in Hr.
   destruct (lvl_spec p wfp (N p)) as [_ HR].
   assert (HRe : RSpec e (read_any p)) by (apply (RSpec_mono (N p) e); [unfold N; lia|exact HR]).
-  assert (Cc : ctx_ok [e] (Some e, true)) by (unfold ctx_ok; cbn; eauto).
-  destruct (eval_spec p e (read_any p) HRe body (Some e, true) sc [e] e s' v Hok (le_n e) Ic Cc L1c Hr)
-    as (Ie & L1e & Pe & _). cbn [fst] in Pe. unfold TopOK in L1e. cbn [fst] in L1e.
+  destruct (eff_eval_spec e (read_any p) HRe He body (Some e, true) sc s' v Hok eq_refl Ic L1c Hr)
+    as (Ie & L1e & Pe). unfold TopOK in L1e. cbn [fst] in L1e.
   destruct (inv_frame _ _ _ _ Ie e (or_introl eq_refl)) as (F1&F2&_&_&_&_&F7).
   split; [apply (Inv_nil p e 0); eapply Inv_pop; eauto|].
-  split.
-  { eapply PullRel_trans; [exact Pc|]. apply PullRel_pop; auto. intros Hm; congruence. }
-  split; auto. split; auto. split; auto.
-  destruct (pr_above2 _ _ _ _ _ _ Pe e (le_n e)) as (_&_&Hsu). congruence.
+  split; [eapply EffRel_trans; [eapply PullRel_EffRel; exact Pc|exact Pe]|].
+  split; auto.
 Qed.
 
 (* effect-level fields that only the executor / the owner operations touch *)
@@ -189,6 +278,10 @@ Lemma PullRel_static b stk ex s s' : PullRel b stk ex s s' -> eff_static s s'.
 Proof.
   intros P. split; [|apply P]. intros i. destruct (pr_eff _ _ _ _ _ _ P i) as (?&?&?&?&?&?). auto.
 Qed.
+Lemma EffRel_static s s' : EffRel s s' -> eff_static s s'.
+Proof.
+  intros [P Ph]. split; [|exact Ph]. intros i. destruct (P i) as (?&?&?&?&?&?). auto.
+Qed.
 Lemma updn_static e f s :
   (forall n, epaused (f n) = epaused n /\ ealive (f n) = ealive n /\
              edone (f n) = edone n /\ epoll (f n) = epoll n) ->
@@ -203,7 +296,7 @@ Proof. split; auto. Qed.
 
 (* ---------------------------------------------------------------- the handler of a watch *)
 Lemma eff_handler_spec e h s :
-  Inv0 s -> effb e = true -> expr_ok p e false h ->
+  Inv0 s -> effb e = true -> body_ok e h ->
   Lcur s e -> Lclean s e -> edirty (getn s e) = false ->
   let s' := eff_handler p e h s in
   Inv0 s' /\ Lcur s' e /\ Lclean s' e /\ edirty (getn s' e) = false /\ eff_static s s' /\
@@ -214,21 +307,20 @@ Proof.
   assert (I1 : Inv0 s1) by (apply Inv_emit; auto).
   assert (I1' : Inv [e] e s1) by (apply Inv_push; auto).
   destruct (eval p (read_any p) true (Some e, false) h s1) as [s2 v] eqn:Ev.
-  rewrite (eval_aw (read_any p) h e (Some e, false) s1 Hok) in Ev.
   destruct (lvl_spec p wfp (N p)) as [_ HR].
   assert (Hel : e < length p) by (apply effb_lt; auto).
   assert (HRe : RSpec e (read_any p)) by (apply (RSpec_mono (N p) e); [unfold N; lia|exact HR]).
   assert (Cc : ctx_ok [e] (Some e, false)) by (unfold ctx_ok; cbn; eauto).
   assert (T1 : TopOK (Some e, false) s1).
   { unfold TopOK; cbn. destruct (inv_rest _ _ _ _ I1 e (fun x => x)) as (R1&_). exact R1. }
-  destruct (eval_spec p e (read_any p) HRe h (Some e, false) s1 [e] e s2 v Hok (le_n e) I1' Cc T1 Ev)
-    as (I2 & T2 & P2 & _). unfold TopOK in T2. cbn [fst] in T2.
+  destruct (eff_eval_spec e (read_any p) HRe He h (Some e, false) s1 s2 v Hok eq_refl I1' T1 Ev)
+    as (I2 & T2 & P2). unfold TopOK in T2. cbn [fst] in T2.
   destruct (inv_frame _ _ _ _ I2 e (or_introl eq_refl)) as (F1&F2&_&_&_&_&F7).
   split; [apply Inv_emit; apply (Inv_nil p e 0); eapply Inv_pop; eauto|].
   split; auto. split; auto. split; auto. split.
   - eapply eff_static_trans; [apply emit_static|].
-    eapply eff_static_trans; [eapply PullRel_static; exact P2|apply emit_static].
-  - rewrite getn_emit. destruct (pr_eff _ _ _ _ _ _ P2 e) as (->&_). reflexivity.
+    eapply eff_static_trans; [eapply EffRel_static; exact P2|apply emit_static].
+  - rewrite getn_emit. destruct (proj1 P2 e) as (->&_). reflexivity.
 Qed.
 
 (* ---------------------------------------------------------------- EffectInner::update_if_necessary *)
@@ -395,7 +487,7 @@ Qed.
 
 (* a run of the body from an exempted state with the dirty flag down *)
 Lemma eff_run_spec first e body s :
-  InvBut e [] 0 s -> effb e = true -> expr_ok p e false body ->
+  InvBut e [] 0 s -> effb e = true -> body_ok e body ->
   ealive (getn s e) = true -> epoll (getn s e) = true -> edirty (getn s e) = false ->
   (first = true \/ since (getn s e) <> []) ->
   let s' := eff_run p first e body s in
@@ -408,10 +500,10 @@ Proof.
   assert (Hq : queue_ok s e).
   { unfold GraphInvariant.queue_ok, queue_ok_n. rewrite Hde. intros _.
     split; [congruence|]. intros Hpf. congruence. }
-  destruct (eff_body_spec first e body s s1 v I Hq He Hok Hd Hcause Ev) as (I1 & P1 & Hc1 & Hcl1 & Hd1 & _).
+  destruct (eff_body_spec first e body s s1 v I Hq He Hok Hd Hcause Ev) as (I1 & P1 & Hc1 & Hcl1 & Hd1).
   split; [apply Inv_emit; auto|]. split; auto. split; auto. split; auto. split.
-  - eapply eff_static_trans; [eapply PullRel_static; exact P1|apply emit_static].
-  - rewrite getn_emit. destruct (pr_eff _ _ _ _ _ _ P1 e) as (->&_). reflexivity.
+  - eapply eff_static_trans; [eapply EffRel_static; exact P1|apply emit_static].
+  - rewrite getn_emit. destruct (proj1 P1 e) as (->&_). reflexivity.
 Qed.
 
 Lemma static_alive s s' e : eff_static s s' -> ealive (getn s' e) = ealive (getn s e).
@@ -420,14 +512,14 @@ Lemma static_epoll s s' e : eff_static s s' -> epoll (getn s' e) = epoll (getn s
 Proof. intros [H _]. destruct (H e) as (_&_&_&->). reflexivity. Qed.
 
 Lemma eff_iter_spec e k b h s :
-  pure_effects -> decl_of p e = DEff k b h ->
+  no_self_feed -> decl_of p e = DEff k b h ->
   Inv0 s -> ealive (getn s e) = true -> epoll (getn s e) = true -> IterPost s e ->
   let s' := eff_iter p (eff_check p) e (updn e (fun n => set_eflag n false) s) in
   Inv0 s' /\ IterPost s' e /\ eff_static s s'.
 Proof.
   intros Hpure Hde I Ha Hp [IP1 IP2]. cbv zeta.
   assert (He : effb e = true) by (unfold GraphInvariant.effb; rewrite Hde; auto).
-  destruct (Hpure e k b h Hde) as (Hokb & Hokh).
+  destruct (nsf_body_ok e k b h Hpure Hde) as (Hokb & Hokh).
   assert (Hel : e < length p) by (apply effb_lt; auto).
   assert (Hei : e < nlen s) by (rewrite (wf_len p s (inv_wf _ _ _ _ I)); auto).
   destruct (inv_rest _ _ _ _ I e (fun x => x)) as (R1 & R2 & R3 & R4 & R5).
